@@ -18,7 +18,8 @@ from vlib import build, driver, model as M, rigp, runner
 
 PID = "C04"
 KINDS_C = ["ok", "rid+1", "rid-1", "rid0", "ridneg", "stale", "comm_prefix", "comm_suffix", "comm_empty", "comm_case", "version", "trunc", "late", "dup"]
-KINDS_3 = ["ok", "rid+1", "rid-1", "rid0", "ridneg", "stale", "msgid", "user", "engine", "version", "trunc", "late", "dup", "report"]
+KINDS_3 = ["ok", "rid+1", "rid-1", "rid0", "ridneg", "stale", "msgid", "user", "engine", "version", "trunc", "late", "dup", "report",
+           "report_engine", "report_user", "report_msgid"]
 T_SHORT = 0.25
 
 
@@ -88,9 +89,22 @@ class Script:
             elif k == "report":
                 d["report"] = True
                 d["rid"] = (req.request_id + 7) & 0x7FFFFFFF
+            elif k in ("report_engine", "report_user", "report_msgid"):
+                # a Report bypasses only the request-id test: foreign engine id / user / msgID must still be skipped
+                d["report"] = True
+                if k == "report_engine":
+                    ov["engine_id"] = agent.engine_id + b"\x02"
+                    d["creds"] = False
+                elif k == "report_user":
+                    ov["user"] = req.m["usm"]["user"] + b"y"
+                    ov["auth_user"] = agent.users.get(req.m["usm"]["user"])
+                    d["creds"] = False
+                else:
+                    d["mid"] = (req.m["msg_id"] + 3) & 0x7FFFFFFF
+                    ov["msg_id"] = d["mid"]
             if d["rid"] != req.request_id:
                 ov["request_id"] = d["rid"]
-            if k == "report":
+            if k.startswith("report"):
                 dg = agent.reply(req, vb, pdu_tag=B.PDU_REPORT, **ov)
             else:
                 dg = agent.reply(req, vb, **ov)
@@ -289,7 +303,7 @@ def gen_scripts(cfg, tier, rng):
                 pass
             scripts.append((ops[len(scripts) % 4], [list(combo)]))
     # exhaustive: 2 requests with <= 1 datagram each (quick) / <= 2 over a reduced kind set (thorough)
-    red = [k for k in ks if k in ("ok", "stale", "late", "dup", "trunc", "rid+1", "version", "msgid", "comm_suffix", "report")]
+    red = [k for k in ks if k in ("ok", "stale", "late", "dup", "trunc", "rid+1", "version", "msgid", "comm_suffix", "report", "report_engine")]
     per = [[]] + [[k] for k in ks]
     if tier != "quick":
         per = [[]] + [[k] for k in red] + [[a, b] for a in red for b in red]
@@ -329,13 +343,14 @@ def main():
     for ci, cfg in enumerate(cfgs):
         sc = gen_scripts(cfg, a.tier, random.Random(a.seed * 17 + ci))
         random.Random(a.seed + ci).shuffle(sc)
-        nsh = 2 if a.tier == "quick" else 4
+        nsh = 4 if a.tier == "quick" else 6
         for sh in range(nsh):
             jobs.append({"seed": a.seed * 1009 + ci * 10 + sh, "cfg": cfg.to_json(), "scripts": sc[sh::nsh]})
     chk.sample({"script": {"op": "get", "requests": [["late"], ["stale", "dup"]]},
                 "meaning": "reply to request 1 held until request 2 arrives; then a copy with request 1's id, then the true reply twice",
                 "spec": "call 1 times out; call 2 skips the late and stale ones and delivers the first copy of its own reply; the second copy stays queued"})
-    outs = runner.run_workers("checks.c04", "worker", jobs, variant="rel", timeout=3000)
+    # the workers spend most of their time waiting for timeouts to expire: oversubscribe the cores
+    outs = runner.run_workers("checks.c04", "worker", jobs, variant="rel", timeout=3000, nproc=40)
     st = {"scripts": 0, "requests": 0, "datagrams": 0, "unjudged": 0, "kinds": {}}
     for o in outs:
         res = o["result"]
